@@ -295,6 +295,13 @@ class Program:
                 except SyntaxError as e:
                     raise AnalysisError(f"cannot parse {path}: {e}")
                 self.modules[name] = mi
+        # behaviour-preserving normal form (helper inlining, constant-loop unrolling) before anything is indexed
+        from .normalize import Normalizer, load_known
+        try:
+            kf, kc = load_known(os.path.dirname(os.path.dirname(os.path.abspath(__file__))))
+        except (OSError, ValueError, KeyError) as e:
+            raise AnalysisError(f"spec/known_functions.json unreadable: {e}")
+        self.normalizer = Normalizer(self.modules, kf, kc).run()
 
     def _index(self):
         for mod in self.modules.values():
